@@ -96,6 +96,11 @@ class DiscreteTimeInterpreter(TimeInterpreter):
         return
 
     def update_sampling_violation_counter(self, duration):
+        # time stamps are expressed in the default unit of the specification,
+        # the sampling period in its own unit
+        if self.ast.unit != self.sampling_period_unit:
+            duration = duration * self.U[self.ast.unit] / self.U[self.sampling_period_unit]
+
         tolerance = self.sampling_period * self.sampling_tolerance
         if duration < self.sampling_period - tolerance or duration > self.sampling_period + tolerance:
             self.sampling_violation_counter = self.sampling_violation_counter + 1
